@@ -258,3 +258,69 @@ def assumptions(pid):
             "payload Clone and view closures do not touch the queue"]
 
 CUSTOM = {}
+
+# ---------------------------------------------------------------- C19: its own engine
+def c19_engine(pid, tier, seed, evid, t0, finish):
+    """translator (traitscan.py -> Gen/Handles.v) + theorem over the finite domain + rustc probes"""
+    import check as chk
+    violations, known_lines = [], []
+    gen_path = os.path.join(ROOT, "coq", "theories", "Gen", "Handles.v")
+    r = subprocess.run([sys.executable, os.path.join(HERE, "traitscan.py"), "/repo/src"], capture_output=True, text=True)
+    regenerated = r.returncode == 0 and "Definition structs" in r.stdout
+    if regenerated:
+        old = open(gen_path).read() if os.path.exists(gen_path) else ""
+        if old != r.stdout:
+            open(gen_path, "w").write(r.stdout)
+    pr = chk.proof_stage(pid, tier) if regenerated else {"ok": False, "obligations": 0, "discharged": 0, "theorems": [], "axioms": [], "detail": "traitscan failed: " + r.stderr[-500:], "checker_cmd": ""}
+    # implementation side: rustc decides every well-formed instantiation
+    pdir = os.path.join(ROOT, "probe")
+    try:
+        import shutil
+        shutil.copy("/repo/Cargo.lock", os.path.join(pdir, "Cargo.lock"))
+    except Exception:
+        pass
+    b = subprocess.run("CARGO_NET_OFFLINE=true cargo build --offline 2>&1 | tail -40", shell=True, cwd=pdir, capture_output=True, text=True)
+    rows, mism = [], []
+    exe = os.path.join(pdir, "target", "debug", "probe")
+    built = "Finished" in b.stdout and os.path.exists(exe)
+    if built:
+        out = subprocess.run([exe], capture_output=True, text=True).stdout
+        bc = {"BroadcastSender", "BroadcastReceiver", "BroadcastUniReceiver", "BroadcastFutSender", "BroadcastFutReceiver", "BroadcastFutUniReceiver"}
+        fu = {"BroadcastFutUniReceiver", "MPMCFutUniReceiver"}
+        for ln in out.splitlines():
+            h, ps, py, fs, fy, s, y = ln.split()
+            ps, py, fs, fy, s, y = map(int, (ps, py, fs, fy, s, y))
+            exp = int(bool(ps) and (h not in bc or py) and (h not in fu or fs))
+            rows.append(ln)
+            if s != exp or y != 0:
+                mism.append({"handle": h, "payload": {"send": ps, "sync": py}, "closure": {"send": fs, "sync": fy},
+                             "rustc_send": s, "rustc_sync": y, "expected_send": exp, "expected_sync": 0})
+    if mism:
+        violations.append(({"stage": "oracle", "property": pid, "violation": mism[0], "all": mism[:10],
+                            "how_to_replay": "cd /verif/probe && cargo build --offline && ./target/debug/probe (columns: handle payloadSend payloadSync closureSend closureSync isSend isSync)"}, ""))
+    elif not pr["ok"] or not built:
+        violations.append(({"stage": "proof" if built else "probe-build",
+                            "no_longer_checks": pr["detail"] if built else "the probe crate does not compile against /repo: " + b.stdout[-800:],
+                            "theorems": pr["theorems"]}, "no-failing-input-found"))
+    evid["coverage"] = {
+        "obligations": pr["obligations"], "discharged": pr["discharged"], "checker_cmd": pr.get("checker_cmd", ""),
+        "theorems": pr["theorems"], "axioms_reported": pr["axioms"],
+        "trusted_base": [
+            "Coq 8.16.1 kernel; vm_compute decides the finite domain (12 handles x 4 payload classes x 4 closure classes), lifted by forallb_forall",
+            "axioms: none (Closed under the global context)",
+            "translator tools/traitscan.py (regex/recursive-descent reading of struct fields and unsafe impl headers) regenerates coq/theories/Gen/Handles.v from /repo/src on every run",
+            "TraitModel.v: the std auto-trait rules for raw pointers, references, Cell, Arc, Mutex, PhantomData, Vec/VecDeque/Option/Box, dyn Trait; explicit impls replace auto-derivation",
+            "rustc's trait solver as the implementation side (probe crate, one instantiation per well-formed combination)",
+            "reduction of 'all payload types' to the four (Send,Sync) classes relies on the parametricity of trait resolution",
+        ],
+        "evaluations": len(rows), "distinct_nontrivial": len(set(rows)),
+        "rule": "every well-formed (handle, payload class, closure class) instantiation is compiled by rustc and compared with the table the theorem proves; distinct = different instantiations",
+        "samples": rows[:6] + rows[-3:], "exhaustive": True,
+        "traces_validated_against_impl": len(rows) - len(mism),
+        "regenerated_model_from_source": regenerated,
+    }
+    evid["assumptions"] = ["well-formedness: BroadcastUniReceiver and BroadcastFutUniReceiver exist only for T: Sync (their struct bounds)"]
+    return finish(pid, evid, violations, known_lines, t0)
+
+CUSTOM["C19"] = c19_engine
+PROPS["C19"] = {"custom": True, "gens": [], "oracles": []}
